@@ -89,6 +89,10 @@ def _run(scen, sim, final, info, hooks, scratch):
         return
     info.update(sinfo)
     info["scheduler"] = scheduler
+    final["pte"] = canon(sinfo.get("pte")) if sinfo.get("pte") is not None else None
+    bm = getattr(scheduler, "bracket_manager", None)
+    if bm is not None and hasattr(bm, "bracket_rungs"):
+        final["bracket_rungs"] = [[[int(a), int(b)] for a, b in br] for br in bm.bracket_rungs]
     backend = make_backend(scen, sim, job)
     info["backend"] = backend
     info["job"] = job
@@ -132,11 +136,41 @@ def _run(scen, sim, final, info, hooks, scratch):
     info["tuner"] = tuner
     truth = getattr(backend, "dst_truth", None)
     probes.wrap_backend(sim, backend, latency, truth=truth)
-    probes.wrap_scheduler(sim, scheduler, latency, hooks=hooks.get("sched_hooks"))
+    from dst import zoo as _zoo
+
+    user_hooks = hooks.get("sched_hooks") or {}
+
+    def post(name, rec, ret, ev, scheduler=scheduler):
+        taps(scheduler, name, rec, ret, ev)
+        if user_hooks.get("post"):
+            user_hooks["post"](name, rec, ret, ev)
+
+    probes.wrap_scheduler(sim, scheduler, latency, hooks={"pre": user_hooks.get("pre"), "post": post},
+                          hang_limit=90.0 if scen["kind"] in _zoo.GP_KINDS else 12.0)
     if hooks.get("pre_run"):
         hooks["pre_run"](sim, scen, info)
     sim.log("run.begin")
     _run_tuner(sim, scen, tuner, final, info, hooks, backend, store)
+
+
+def taps(scheduler, name, rec, ret, ev):
+    """State taps named in DESIGN (trusted base): sampled bracket, PASHA resource cap."""
+    term = getattr(scheduler, "terminator", None)
+    if term is None:
+        return
+    info = getattr(term, "_task_info", None)
+    if info is not None:
+        if name == "on_trial_add":
+            b = info.get(str(rec["trial"]))
+            if b is not None:
+                ev["bracket"] = int(b)
+        elif name == "suggest" and ret is not None and not ret.spawn_new_trial_id:
+            b = info.get(str(ret.checkpoint_trial_id))
+            if b is not None:
+                ev["bracket"] = int(b)
+    rs = getattr(term, "_rung_systems", None)
+    if rs and hasattr(rs[0], "current_max_t") and name in ("suggest", "on_trial_result"):
+        ev["pasha_cap"] = int(rs[0].current_max_t)
 
 
 def _make_tuner(Tuner, scen, backend, scheduler, callbacks, world):
@@ -197,5 +231,31 @@ def _run_tuner(sim, scen, tuner, final, info, hooks, backend, store):
     final["rows"] = [canon(r) for r in store.results]
     final["tuner_path"] = str(tuner.tuner_path)
     final["alive_after"] = backend.alive_trials() if hasattr(backend, "alive_trials") else None
+    # results table read back from disk, best configuration as reported by tuner and loaded experiment
+    try:
+        import pandas as pd
+        from syne_tune.constants import ST_RESULTS_DATAFRAME_FILENAME
+
+        p = tuner.tuner_path / ST_RESULTS_DATAFRAME_FILENAME
+        if p.exists():
+            df = pd.read_csv(p)
+            final["csv"] = {"columns": list(df.columns), "rows": [canon(r) for r in df.to_dict("records")]}
+        else:
+            final["csv"] = None
+    except Exception as e:
+        final["csv"] = {"error": "%s: %s" % (type(e).__name__, str(e)[:200])}
+    if st is not None and st.overall_metric_statistics.count > 0:
+        try:
+            tid, cfg = tuner.best_config()
+            final["best"] = {"trial": int(tid), "config": canon(cfg)}
+        except BaseException as e:
+            final["best"] = {"error": "%s: %s" % (type(e).__name__, str(e)[:200])}
+        try:
+            from syne_tune.experiments import load_experiment
+
+            exp = load_experiment("dst", download_if_not_found=False)
+            final["exp_best"] = canon(exp.best_config())
+        except BaseException as e:
+            final["exp_best"] = {"error": "%s: %s" % (type(e).__name__, str(e)[:200])}
     if hooks.get("post_run"):
         hooks["post_run"](sim, scen, info, final)
